@@ -178,6 +178,8 @@ func (s *LookupPartitionStrategy) AddPartition(name string, partition *LookupPar
 	if ok {
 		return false
 	}
+	// the new bin's share is derived from the current total limit like every registered bin
+	partition.UpdateLimit(s.limit)
 	s.partitions[name] = partition
 	return true
 }
